@@ -152,6 +152,18 @@ macro_rules! float_checks {
                 let (ft, half) = if deg { (Deg::<F>::full_turn().0, Deg::<F>::turn_div_2().0) } else { (Rad::<F>::full_turn().0, Rad::<F>::turn_div_2().0) };
                 ensure!(n >= 0.0 && n <= ft, "normalize-range", "normalize({:e}) = {:e} outside [0, {}]", a, n, ft);
                 ensure!(ns >= -half && ns <= half, "normalize_signed-range", "normalize_signed({:e}) = {:e} outside [-{}, {}]", a, ns, half, half);
+                // an angle that is already the representative is returned as it is: the remainder by a larger modulus is
+                // exact, so nothing is rounded (a relative statement - tiny angles keep all their digits)
+                if a >= 0.0 && a < ft {
+                    ensure!(n.to_bits() == a.to_bits() || ((n - a).abs() as f64) <= 2.0 * EPS * a as f64, "normalize-in-range-identity", "normalize({:e}) = {:e}: an angle inside [0, full turn) is not returned unchanged", a, n);
+                }
+                if a > -half && a <= half && a != 0.0 {
+                    let want = a;
+                    ensure!(((ns - want).abs() as f64) <= 4.0 * EPS * (ft as f64) , "normalize_signed-in-range", "normalize_signed({:e}) = {:e}", a, ns);
+                    if a > 0.0 {
+                        ensure!(ns.to_bits() == a.to_bits() || ((ns - a).abs() as f64) <= 2.0 * EPS * a as f64, "normalize_signed-in-range-identity", "normalize_signed({:e}) = {:e}: an angle inside (0, half turn] is not returned unchanged", a, ns);
+                    }
+                }
                 let tol = if std::mem::size_of::<F>() == 4 { 1e-6 } else { 1e-9 };
                 let t64 = ft as f64;
                 if (a as f64).abs() <= 1.0e6 * t64 {
